@@ -187,9 +187,12 @@ def zids_before_index(run: Run, model: PyModel, rid: str) -> None:
             run.check(rid, "the page is recorded so its events are drained", seen >= 0, "SQLRepo.add_file", "no _record_seen_page", "add_file does not record the page: its NewZorgNotesEvent is never collected and the file never gains the ZIDs", file=FILE_R, node=fi.node)
     run.floor("paths of add_file", n, 1)
     zid_assignment_eval(run, model, rid)
-    fz = model.func(f"{REPO}._add_zids")
-    fl = model.func(f"{H}._add_zid_to_line")
-    for f in (fz, fl, model.func(f"{H}._add_or_update_modify_date"), model.func(f"{H}._check_for_modified_notes")):
+    from .indexscen import event_handlers
+
+    roots = event_handlers(model, "NewZorgNotesEvent") + event_handlers(model, "ModifiedZorgNotesEvent") + [f"{REPO}._add_zids", f"{H}._check_for_modified_notes"]
+    slice_ = sorted(q for q in model.reachable(roots) if not q.startswith("zorg.shared.dates."))
+    run.floor("functions of the ZID / modify-date write-back", len(slice_), 8)
+    for f in (model.funcs[q] for q in slice_):
         for call, why in split_join_mismatch(f.node):
             run.refuted(rid, f.name, call, f"{f.name}: {why}: the text is re-flowed (multi-line bodies collapse, spacing changes), so index and file stop agreeing", file=f.file, node=call)
 
@@ -201,6 +204,7 @@ def zid_assignment_eval(run: Run, model: PyModel, rid: str) -> None:
     and a first word that only looks like a date (the date recogniser is an uninterpreted predicate answering the same on both sides)."""
     from .absint import Interp, Raised, State
     from .absval import HObj, Opaque, Ref, Term
+    from .indexscen import writeback_line
 
     LONG = {"2024-03-13": True, "2024x03y13": False, "2024-13-39": False}
     asked: list = []
@@ -278,15 +282,11 @@ def zid_assignment_eval(run: Run, model: PyModel, rid: str) -> None:
             # the same text as a plain note, as a todo, and as a todo with a priority (a todo's own priority word is not part of its body, so a body that starts with one is only tried behind a priority)
             prefixes = ["- ", "o P1 ", "  x P0 "] + ([] if real_priority else ["o ", "~ "])
             for prefix in prefixes:
-                try:
-                    lres = I.run_function(f"{H}._add_zid_to_line", [zid, prefix + text], st=State())
-                except Exception as e:
-                    run.undecided(rid, "_add_zid_to_line", f"cannot evaluate abstractly: {type(e).__name__}: {e}")
+                lv, why = writeback_line(model, "NewZorgNotesEvent", prefix + text, dict(body=f["body"], zid=zid), "new_notes", probes={"zorg.shared.dates.is_long_date_spec": long_date})
+                if lv is None:
+                    run.undecided(rid, "ZID write-back", why)
                     continue
-                for lv, ls in lres:
-                    if isinstance(lv, Raised) or ls.imprecise or not isinstance(lv, str):
-                        run.undecided(rid, "_add_zid_to_line", f"{prefix + text!r}: " + (f"raises {lv.exc}" if isinstance(lv, Raised) else "; ".join(ls.imprecise[:2]) or repr(lv)))
-                        continue
+                for _ in (0,):
                     idx_first = f["body"].split("\n")[0] if isinstance(f["body"], str) else None
                     ok = idx_first is not None and lv == prefix + idx_first
                     run.check(rid, f"index body and file line agree after the ZID is added (`{prefix}`, first word {first_line.split()[0]!r})", ok, "_add_zids/_add_zid_to_line",
